@@ -17,15 +17,15 @@ CLAIMS = {
  "C08": ("proof", "payload and stamp frame clauses on every function under contract; get/get_mut/Index/IndexMut address exactly the slot of the id. 'Dropped exactly once' rests on Rust ownership and forbid(unsafe_code) and is a stated assumption.", "§4 C08", "Rust ownership semantics for Drop; Verus does not model Drop"),
  "C09": ("proof", "constructors and step functions of all nine traversals are under contract: sibling/children iterators against the ghost deque walk(node) / children_seq(node) (the documented order), ancestors/predecessors/reverse_children step laws, next_traverse/prev_traverse equal the documented depth-first step and are proved mutually inverse, Traverse/ReverseTraverse stop exactly at End(root)/Start(root), Descendants::next returns the next Start edge of Traverse. The whole-tour theorem (balanced sequence, confinement to the subtree, pre-order of descendants) is not yet a discharged obligation and is not claimed.", "§4 C09", "the whole-tour characterisation is open (see DESIGN.md); step laws and inverse law are proved"),
  "C10": ("proof", "next/next_back of children, following_siblings and preceding_siblings are verified against a ghost deque: front pulls pop the front, back pulls pop the back, both fused at empty; the three constructors are proved to establish the deque with the documented sequence (including parentless nodes, where the far end is found by walking).", "§4 C10", "none beyond the common trusted base"),
- "C11": ("proof", "accessor contracts: get/Index/IndexMut/get_node_id_at/count/is_empty/as_slice/usize::from/NonZeroUsize::from agree with the slot view. get_node_id (raw pointer arithmetic) is outside Verus and is not claimed as proved.", "§4 C11", "iter()/iter_mut()/Display delegate to std; get_node_id not under contract"),
+ "C11": ("proof", "accessor contracts: get/Index/IndexMut/get_node_id_at/count/is_empty/as_slice/usize::from/NonZeroUsize::from agree with the slot view (proved). get_node_id (raw pointer arithmetic) is outside Verus: two Kani harnesses check the round trip on arenas of at most 3 slots with one removal and one recycling; that part is BOUNDED and not counted as proved.", "§4 C11", "iter()/iter_mut()/Display delegate to std; get_node_id only bounded (Kani, <= 3 slots); a node of another arena cannot be checked in CBMC's pointer model"),
  "C12": ("proof", "a removed slot has no links (part of wf, hence after every operation), no link of a live node targets a removed slot or an old generation, inserts with a removed id in either position are refused without change, Node::reuse starts with no links.", "§4 C12", "none beyond the common trusted base"),
+ "C17": ("other", "restricted claim: the extraction is repeated for all 16 subsets of {std, macros, par_iter, deser}; the functions under contract are token-identical in every subset (today: one variant), and any variant that differs is verified against the same contracts; par_iter's body is checked syntactically. Whole-crate behaviour (pretty-printed text, serde, macros) is outside the claim.", "§4 C17", "only the functions under contract; identical extracted text is taken as identical behaviour because their only dependencies are core/alloc"),
  "C13": ("proof", "new/default/with_capacity/clear all yield the same three fields (empty, no free slots); reserve/with_capacity change nothing observable; every contract is a function of the three fields that derive(PartialEq) compares.", "§4 C13", "derive(Clone, PartialEq) are structural; Vec capacity guarantees are std's"),
 }
 NA = {
  "C14": "the pretty printer is &str scanning into fmt::Formatter; the installed Verus rejects str byte reasoning and format_args!, so no contract within reach can state the output text",
  "C15": "quantifies over macro input programs of a proc-macro built on syn/quote; verifying a hand-written model of it would be proving a model, a different family",
  "C16": "behaviour is serde_derive output against an arbitrary Serializer/Deserializer; there is no function of this crate to put a contract on",
- "C17": "feature-set comparison of whole-crate behaviour is not a per-function contract; a restricted per-feature extraction check is planned",
  "C18": "auto-trait inference and absence of unsafe are decided by rustc; concurrency is outside Verus (no permission-typed code here) and Kani (no threads)",
 }
 checks = []
@@ -42,7 +42,7 @@ for p in props:
             "engine": "vx",
             "level_claimed": {"category": cat, "text": text, "design_ref": ref},
             "level_note": note + "; common trusted base: Verus+Z3, extraction rules R1-R7, panic primitives as obligations, structural derives, NonZeroUsize extensionality",
-            "technique": TECH,
+            "technique": TECH if cat == "proof" else "per-feature mechanical extraction + token comparison; differing variants re-verified with Verus against the same contracts",
         })
 m = {
  "version": 1,
